@@ -270,6 +270,19 @@ def ctl_extract(t):
                     if not _same_num(e["f_base"], p["pre"]["fval"]) or (e["s_base"] is not None and not _same_num(e["s_base"], p["pre"]["fsd"])):
                         ob["ei_inputs_bad"] = ("improvement_inputs", f"poll improvement computed against ({e['f_base']}, {e['s_base']}) but the incumbent estimate at poll start is ({p['pre']['fval']}, {p['pre']['fsd']})")
                         break
+                if it["start"]["unc"] == 0 and ob["ei_inputs_bad"] is None:
+                    # deterministic runs: the improvement of an evaluated poll point is the incumbent's value minus the value the TARGET returned
+                    # at that call (the wrapper's own record, as a float) - whatever numeric type the target returned it in
+                    pc = it.get("pcalls") or []
+                    for j, e in enumerate(eis[:n]):
+                        tr_ = pc[j].get("tret") if j < len(pc) else None
+                        if tr_ is None or tr_[0] is None or not isinstance(e["z"], (int, float)) or not isinstance(p["pre"]["fval"], (int, float)):
+                            continue
+                        want_z = float(p["pre"]["fval"]) - float(tr_[0])
+                        if not (math.isnan(want_z) or _same_num(float(e["z"]), want_z)):
+                            ob["ei_inputs_bad"] = ("improvement_of_observed_values", f"deterministic run: the poll improvement of the point evaluated at call #{pc[j]['k']} is {e['z']}, "
+                                                   f"but the incumbent's value {p['pre']['fval']} minus the value the target returned there ({tr_[0]}) is {want_z}")
+                            break
                 if len(eis) > n and ob["ei_inputs_bad"] is None:
                     a = eis[n]
                     hb = it.get("hist_at_poll", {"fval": {}, "fsd": {}})
